@@ -6,7 +6,7 @@
    table satisfies and every operation preserves — and every sequence of operations.
    Keys are (first replay_mac_len MAC bytes, t_expired); equal expiry and equal MAC prefix are not excluded
    anywhere.  Pipeline-level theorems (dec_process order, retry exception) are appended by the maintainer. *)
-From Coq Require Import List NArith Bool.
+From Coq Require Import List NArith Bool Permutation.
 From Coq.Strings Require Import Byte.
 From MV Require Import Bytes ReplayModel ReplayProofs.
 From MV.gen Require Import GenReplay.
@@ -19,7 +19,7 @@ Theorem C05_source_facts :
   replay_cmp_mac_first = true /\ replay_cmp_len = replay_mac_len /\
   N.of_nat replay_mac_len = munge_minimum_md_len /\
   replay_expired_when_lt = true /\ replay_expired_when_eq = false /\ replay_expired_when_gt = false /\
-  replay_texp_modulus = 4294967296 /\ 0 < replay_hash_size /\ 0 < replay_purge_secs.
+  replay_texp_wraps32 = false /\ replay_texp_exact = true /\ 0 < replay_hash_size /\ 0 < replay_purge_secs.
 Proof. exact source_facts. Qed.
 Print Assumptions C05_source_facts.
 
@@ -51,6 +51,27 @@ Theorem C05_hash_refines_set : forall (slot_of : rkey -> nat) (nslots : nat), sl
        (forall x, In x (abs (snd r)) <-> In x (abs t) /\ now <= snd x)).
 Proof. exact hash_refines_set. Qed.
 Print Assumptions C05_hash_refines_set.
+
+(* bridge to a list-of-keys view of the replay set (the credential pipeline's CredModel keeps a list with a
+   member test, k :: rs on insert and a filter on roll-back): a list with the same members as abs t gives
+   the same verdicts and keeps the same members under insert and remove; abs itself changes by a
+   permutation of k :: abs t *)
+Theorem C05_abs_list_bridge : forall (slot_of : rkey -> nat) (nslots : nat), slots_ok slot_of nslots ->
+  forall (t : rtable) (l : list rkey), rinv slot_of nslots t -> (forall x, In x l <-> In x (abs t)) ->
+  forall k,
+    (fst (replay_insert slot_of k t) = AlreadyExists <-> In k l) /\
+    (fst (replay_insert slot_of k t) = Inserted <-> ~ In k l) /\
+    (fst (replay_insert slot_of k t) = AlreadyExists -> snd (replay_insert slot_of k t) = t) /\
+    (fst (replay_insert slot_of k t) = Inserted ->
+       Permutation (abs (snd (replay_insert slot_of k t))) (k :: abs t)) /\
+    (forall x, In x (k :: l) <-> In x (abs (snd (replay_insert slot_of k t)))) /\
+    (fst (replay_remove slot_of k t) = true <-> In k l) /\
+    (fst (replay_remove slot_of k t) = true ->
+       Permutation (k :: abs (snd (replay_remove slot_of k t))) (abs t)) /\
+    (forall l', (forall x, In x l' <-> In x l /\ x <> k) ->
+                forall x, In x l' <-> In x (abs (snd (replay_remove slot_of k t)))).
+Proof. exact abs_list_bridge. Qed.
+Print Assumptions C05_abs_list_bridge.
 
 (* sequential decodes (any keys, any order, failed attempts interleaved): the i-th event, a presentation
    of k, is answered Exists exactly when k was in the table at the start or was presented before, and
